@@ -2,7 +2,7 @@
    periods).  Statements only; every proof is `exact <lemma>`; Print Assumptions under each. *)
 From Coq Require Import ZArith List Bool String Sorted.
 Import ListNotations.
-Require Import PyBase Generated Locate LocateFacts LocateFacts2 LocateExamples.
+Require Import PyBase Generated Locate LocateFacts LocateFacts2 LocateExamples LocateIndex LocateIndexFacts.
 Open Scope Z_scope.
 Open Scope list_scope.
 
@@ -306,13 +306,81 @@ Theorem C10_write_whole_wrong_length (V : Type) (st : cstate V) (name : string) 
 Proof. exact (fun H => @write_whole_wrong_length V st name sr H vs new_id). Qed.
 Print Assumptions C10_write_whole_wrong_length.
 
-(* an unknown variable name: every access path raises and the object is unchanged *)
+(* an unknown variable name (incl. 'attributes' / 'strict', since fix 216fc36 also on the tuple-key write path): every access path
+   raises KeyError (AttributeError for the attribute read) before anything is located or written; the object is unchanged *)
 Theorem C10_unknown_name_paths (V : Type) (lc : label -> outcome loc) (st : cstate V) (name : string) :
   lookup name (c_vars st) = None ->
   (forall k, get_item_with lc st name k = Raise KeyError)
   /\ get_key st name = Raise KeyError /\ get_attr st name = Raise AttributeError
-  /\ (forall k w, fst (set_item_with lc st name k w) = st /\ exists e, snd (set_item_with lc st name k w) = Raise e)
+  /\ (forall k w, set_item_with lc st name k w = (st, Raise KeyError))
   /\ (forall i v, set_pos st name i v = (st, Raise KeyError))
   /\ (forall w id, set_whole st name w id = (st, Raise KeyError)).
 Proof. exact (@unknown_name_paths V lc st name). Qed.
 Print Assumptions C10_unknown_name_paths.
+
+Theorem C10_unknown_name_before_lookup (V : Type) (lc1 lc2 : label -> outcome loc) (st : cstate V) (name : string) (k : key) (w : operand V) :
+  lookup name (c_vars st) = None -> set_item_with lc1 st name k w = set_item_with lc2 st name k w.
+Proof. exact (@unknown_name_before_lookup V lc1 lc2 st name k w). Qed.
+Print Assumptions C10_unknown_name_before_lookup.
+
+(* ---------- pandas PeriodIndex / DatetimeIndex WITHOUT an oracle hypothesis: a model of Index.get_loc for regular indexes
+   (period_range: consecutive integer ordinals of one frequency; date_range with a fixed-length frequency: nanoseconds with a
+   constant step).  The model finds a label by its integer code; it is tied to pandas by the correspondence check (every recorded
+   get_loc / `in` answer for a label pandas does not parse from text).  With it `locate_spec` — the hypothesis of every theorem
+   above — is PROVED for these spans (every start, every non-zero step, every length, both kinds), and the labels are
+   duplicate-free, so C10_label_get_exact / C10_slice_positions / C10_write_then_read_any_path / C10_missing_* apply
+   to them unconditionally. ---------- *)
+Theorem C10_regular_index_get_loc (k : ikind) (a s : Z) (n : nat) :
+  s <> 0 ->
+  forall x, match pos x (reg_labels k a s n) with
+            | Some p => exists fl, reg_get_loc k a s n x = Ret (LPos (Z.of_nat p) fl)
+            | None => reg_get_loc k a s n x = Raise KeyError
+            end.
+Proof. exact (reg_get_loc_spec k a s n). Qed.
+Print Assumptions C10_regular_index_get_loc.
+
+Theorem C10_locate_regular_index (k : ikind) (a s : Z) (n : nat) :
+  s <> 0 -> locate_spec (reg_labels k a s n) (locate (fun _ => reg_get_loc k a s n) (SPandas (reg_labels k a s n))).
+Proof. exact (locate_regular_index k a s n). Qed.
+Print Assumptions C10_locate_regular_index.
+
+Theorem C10_regular_index_NoDup (k : ikind) (a s : Z) (n : nat) : s <> 0 -> NoDup (reg_labels k a s n).
+Proof. exact (reg_labels_NoDup k a s n). Qed.
+Print Assumptions C10_regular_index_NoDup.
+
+Theorem C10_regular_index_contains (k : ikind) (a s : Z) (n : nat) (x : label) :
+  s <> 0 -> reg_contains k a s n x = match pos x (reg_labels k a s n) with Some _ => true | None => false end.
+Proof. exact (reg_contains_spec k a s n x). Qed.
+Print Assumptions C10_regular_index_contains.
+
+(* any pandas span whose labels are recognised as such an index is span_ok, whatever oracle serves the other spans *)
+Theorem C10_recognised_span_ok (fb : list label -> label -> outcome loc) (ls : list label) :
+  recognise ls <> None -> span_ok (model_get_loc fb) (SPandas ls).
+Proof. exact (recognised_span_ok fb ls). Qed.
+Print Assumptions C10_recognised_span_ok.
+
+(* ---------- OUTSIDE the property (it speaks of positive steps only; the oracle is silent there): what the code does with a
+   negative step or step 0, on record.  `stop_location += 1` is applied whatever the sign of the step, so with s < 0 the walk
+   down from pos a stops BEFORE pos b + 1: neither the stop label nor the period after it is addressed.  Step 0: ValueError. ---------- *)
+Theorem C10_negative_step_get (V : Type) (lc : label -> outcome loc) (st : cstate V) (name : string) (sr : series V)
+        (a b : option label) (s : Z) (pa pb : nat) :
+  locate_spec (span_labels (c_span st)) lc ->
+  lookup name (c_vars st) = Some sr ->
+  List.length (s_data sr) = List.length (span_labels (c_span st)) ->
+  NoDup (span_labels (c_span st)) ->
+  start_pos (span_labels (c_span st)) a = Some pa -> stop_pos (span_labels (c_span st)) b = Some pb -> s < 0 ->
+  exists L, get_item_with lc st name (KSlice a b (Some s)) = Ret (RArr (gather (s_data sr) L))
+    /\ forall q, In q L <-> exists i : nat, Z.of_nat q = Z.of_nat pa + Z.of_nat i * s /\ Z.of_nat pb + 1 < Z.of_nat q.
+Proof. exact (@negative_step_get V lc st name sr a b s pa pb). Qed.
+Print Assumptions C10_negative_step_get.
+
+Theorem C10_zero_step_rejected (V : Type) (lc : label -> outcome loc) (st : cstate V) (name : string) (sr : series V)
+        (a b : option label) (pa pb : nat) (w : operand V) :
+  locate_spec (span_labels (c_span st)) lc ->
+  lookup name (c_vars st) = Some sr ->
+  NoDup (span_labels (c_span st)) ->
+  start_pos (span_labels (c_span st)) a = Some pa -> stop_pos (span_labels (c_span st)) b = Some pb ->
+  get_item_with lc st name (KSlice a b (Some 0)) = Raise ValueError
+  /\ set_item_with lc st name (KSlice a b (Some 0)) w = (st, Raise ValueError).
+Proof. exact (@zero_step_rejected V lc st name sr a b pa pb w). Qed.
+Print Assumptions C10_zero_step_rejected.
